@@ -305,7 +305,7 @@ class ClientSubRun:
         kind = ch.weighted("op.kind", [(5, "subscribe"), (4, "unsubscribe"), (4, "pause"), (4, "resume"),
                                        (1, "unsub_all"), (1, "pause_all"), (1, "resume_all"),
                                        (4, "sub_ctx"), (4, "pause_ctx"), (1, "reconnect"), (1, "drop_reconnect"),
-                                       (3 if self.twin is not None else 0, "concurrent")])
+                                       (3 if self.twin is not None else 0, "concurrent"), (1, "short_read")])
         if self.twin is not None and self.twin.connected and ch.flag("op.twin", 1, 3):
             tl = self.arg_list("twin")
             tk = ch.choose("twin.kind", ["subscribe", "unsubscribe", "pause", "resume"])
@@ -388,6 +388,39 @@ class ClientSubRun:
                             sig="context_not_restored:" + ("paused" if s1 == s0 else "subscribed"))
             elif kind == "concurrent":
                 self.concurrent_ops()
+            elif kind == "short_read":
+                # the manager's next blocking read from this client comes back short (part of the request has
+                # arrived, a signal interrupts the wait): whatever the manager makes of it -- it may give the
+                # connection up -- client and manager must agree afterwards
+                from pyrtma.exceptions import ClientError
+                t1 = ch.choose("sr.t", self.uni)
+                c._sock.peer.short_once = True
+                self.t(f"the manager's next read from the client returns short; subscribe([{t1}])")
+                ms = c._sock.peer
+                try:
+                    c.subscribe([t1])
+                except (ClientError, InvalidSubscription) as e:
+                    self.t(f"  -> {type(e).__name__}")
+                finally:
+                    self.w.quiesce()
+                    ms.short_once = False
+                self.res.probes["manager_short_read"] += 1
+                if not c.connected or ms.closed:
+                    for _ in range(3):
+                        if not c.connected:
+                            break
+                        try:
+                            c.send_module_ready()
+                            c.read_message(timeout=0)
+                        except ClientError:
+                            pass
+                    self.w.quiesce()
+                    if not c.connected:
+                        c.connect(f"127.0.0.1:{self.w.PORT}", allow_multiple=self.twin is not None)
+                        self.w.quiesce()
+                        self.check_agreement("reconnect after the manager gave the connection up")
+                else:
+                    self.check_agreement("a short read at the manager")
             elif kind == "drop_reconnect":
                 # the network resets the connection; the same Client object connects again
                 from pyrtma.exceptions import ClientError
